@@ -165,7 +165,11 @@ def check(ctx):
         # every pair of values of one class (where ==, hash and the order carry content), and a sample of the pairs of different classes
         same = [(i, j) for i, j in pairs if type(P[i]) is type(P[j])]
         rest = [(i, j) for i, j in pairs if type(P[i]) is not type(P[j])]
-        pairs = same + rng.sample(rest, min(len(rest), 2500))
+        byclass0 = {}
+        for i, v in enumerate(P): byclass0.setdefault(type(v).__name__, []).append(i)
+        reps0 = [i for l in byclass0.values() for i in (l[:1] + l[-1:] if len(l) > 1 else l)]
+        cross = set(rng.sample(rest, min(len(rest), 2500))) | set((i, j) for i in reps0 for j in reps0 if type(P[i]) is not type(P[j]))
+        pairs = same + sorted(cross)
     for i, j in pairs:
         reqs.append([Sym("c14_cmp"), uakey(P[i]), uakey(P[j])]); meta.append(("cmp", i, j))
         reqs.append([Sym("c14_eq"), uaval(P[i]), uaval(P[j])]); meta.append(("eq", i, j))
@@ -208,7 +212,13 @@ def check(ctx):
             ctx.fail("C14/not-antisymmetric", dict(kind="cmp", a=repr(P[i]), b=repr(P[j])), "a<b and b<a")
         if (j, i) in lt and l is False and lt[(j, i)] is False and uakey(P[i]) != uakey(P[j]):
             ctx.fail("C14/incomparable", dict(kind="cmp", a=repr(P[i]), b=repr(P[j])), "neither a<b nor b<a for values with different class/key")
-    triples = itertools.product(range(n), repeat=3) if not ctx.quick() else (tuple(rng.randrange(n) for _ in range(3)) for _ in range(60000))
+    if ctx.quick():
+        # a sample of all triples, and EVERY triple over two representatives of each class (the order between classes is where a cycle can hide)
+        byclass = {}
+        for i, v in enumerate(P): byclass.setdefault(type(v).__name__, []).append(i)
+        reps = [i for l in byclass.values() for i in (l[:1] + l[-1:] if len(l) > 1 else l)]
+        triples = itertools.chain((tuple(rng.randrange(n) for _ in range(3)) for _ in range(60000)), itertools.product(reps, repeat=3))
+    else: triples = itertools.product(range(n), repeat=3)
     nt = 0
     for i, j, k in triples:
         if lt.get((i, j)) is True and lt.get((j, k)) is True:
